@@ -67,6 +67,8 @@ structure St where
   s1 : V1c Nat Nat := {}
   /-- the port handle has been dropped -/
   dropped : Bool := false
+  /-- v1: publishers parked between `receiver_count()` and `tx.send` (E-THR point) -/
+  pend : List Nat := []
   pubs : List Nat := []
   subs : List SubInfo := []
   stopped : List Nat := []
@@ -259,7 +261,34 @@ def step (st : St) (op impl : String) : St × StepOut :=
       ({ st with s2 := st.s2.step (.op (.exit a)), s1 := st.s1.step (.op (.exit a)), stopped := a :: st.stopped },
        { model := if st.heldActors.contains a then "Draining" else "ok", nontrivial := st.heldActors.contains a })
     | none => (st, { model := "bad-op" })
+  | ["pubcheck", m] =>
+    -- a publisher THREAD runs the real `send` up to the schedule point after `receiver_count()`
+    match m.toNat? with
+    | some m =>
+      if st.isV2 then (st, { model := "bad-op" }) else
+      let t : V1t Nat Nat := { base := st.s1, pending := st.pend }
+      let t' := t.step (.pubCheck m)
+      if st.dropped then (st, { model := "closed" })
+      else if t'.pending.length > st.pend.length then
+        ({ st with pend := t'.pending }, { model := "parked", nontrivial := true })
+      else
+        -- saw no receiver: the publication is dropped here and now
+        ({ st with s1 := t'.base, pubs := st.pubs ++ [m] }, { model := "skipped", nontrivial := true })
+    | none => (st, { model := "bad-op" })
+  | ["pubstore"] =>
+    match st.pend with
+    | [] => (st, { model := "none" })
+    | m :: _ =>
+      let t : V1t Nat Nat := { base := st.s1, pending := st.pend }
+      let t' := t.step (.pubStore 0)
+      let stored : Bool := decide (t'.base.base.log.length > st.s1.base.log.length)
+      ({ st with s1 := t'.base, pend := t'.pending, pubs := st.pubs ++ [m] },
+       { model := "ok", nontrivial := true,
+         -- the publisher must come back from `send` whatever happened since its check
+         oracle := if impl == "ok" then [] else ["publisher-failed"],
+         key := some s!"pubstore stored={stored} fwds={st.s1.base.fwds.length} pend={st.pend.length}" })
   | ["drop"] =>
+    if !st.pend.isEmpty then (st, { model := "busy" }) else
     ({ st with s2 := st.s2.step .drop, s1 := st.s1.step .drop, dropped := true },
      { model := "ok", nontrivial := !st.dropped && (st.dirty || !st.subs.isEmpty) })
   | ["grant", "port"] =>
